@@ -80,7 +80,7 @@ def run_shard(sh_, bdir, deadline):
 SUMKEYS = ["states", "transitions", "revisits", "lines_done", "lines_ok", "lines_err", "lines_blank", "lines_hold", "units_cmd", "units_evt",
            "both_want_flush", "ev_accepted", "ev_full", "ev_done", "ev_silent", "stutters_checked", "ok_repeat_checked", "lock_faults",
            "unlock_faults", "busy_ok_checked", "busy_busy", "hold_yes", "overlong", "ambiguous_eq", "ambiguous_lf", "notfound", "drain_err",
-           "implicit_hits", "test_forms", "list_lines", "wvar_ok", "wvar_err", "rvar", "flag_flips", "canary_checks", "runs", "cases", "distinct"]
+           "implicit_hits", "test_forms", "list_lines", "wvar_ok", "wvar_err", "rvar", "flag_flips", "reinits", "canary_checks", "runs", "cases", "distinct"]
 
 
 def main():
